@@ -112,7 +112,7 @@ def pattr(eng, o, st, old, which):
 
 def kind_prop(eng, o):
     if isinstance(o, T) and o.sort == "Param":
-        return T("Kind", f"(|kind_of| {o.s})")
+        return eng.ctx.app("kind_of", ["Param"], "Kind", [o])
     return NotImplemented
 
 
@@ -175,7 +175,7 @@ SIG_AX = [
 ]
 
 MODULE = Module(
-    prelude=PRELUDE + "\n(declare-sort Param 0)\n(declare-sort Sig 0)\n(declare-sort Params 0)", predeclared_opts=[Opt(HS)], axioms=AX + SIG_AX,
+    prelude=PRELUDE + "\n(declare-sort Param 0)\n(declare-sort Sig 0)\n(declare-sort Params 0)\n(declare-sort Kind 0)", predeclared_opts=[Opt(HS)], axioms=AX + SIG_AX,
     stable={"hash": STR},
     ufuns={"hs": ([HS], STR), "lift_strs": ([Seq(STR)], Seq(HS)), "lift_map": ([Map(STR, STR)], Map(STR, HS)), "vh": ([REF, OBJ], STR),
            "sorted_strs": ([Seq(STR)], Seq(STR)), "params_of": ([REF], Seq("Param")), "pname": (["Param"], STR), "pdefault": (["Param"], OBJ),
